@@ -17,7 +17,7 @@ ANCHORS = ['numdifftools.finite_difference:LogRule._vstack', 'numdifftools.limit
 MIN_COUNTERS = dict(quick={'shape_asserted': 1400, 'neighbour_independence_asserted': 1000,
                            'scalar_equivalence_asserted:bitwise': 600, 'scalar_equivalence_asserted:within_estimate': 200,
                            'forwarding_asserted': 1400, 'cases_where_columns_chose_different_rows': 300,
-                           'cases_with_nonfinite_neighbours': 15},
+                           'cases_with_nonfinite_neighbours': 15, 'scalar_sweep_points_asserted': 20000},
                     thorough={'neighbour_independence_asserted': 30000})
 RULE = ('Replacement neighbours include values outside the domain, at poles and of extreme magnitude (1e13..1e17, 1e-300). ' 
         'shapes with 0..3 axes and <= 40 elements; methods central/forward/backward/complex/multicomplex; n <= 4, order <= 6; '
@@ -102,11 +102,49 @@ def cases(rng, tier, shard, nshards):
                    hostile=bool(rng.random() < 0.4), use_args=int(rng.integers(0, 3)))
 
 
+    # scalar sweeps: many points beyond 1 in magnitude, each evaluated inside one array and alone (as float, numpy scalar, 0-d array)
+    total = dict(quick=24000, thorough=400000)[tier] // nshards
+    for i in range(max(total // 250, 1)):
+        yield dict(kind='scalar_sweep', count=250, cfg=int(rng.integers(0, len(SWEEP_CFGS))), seed=int(rng.integers(0, 2 ** 31)))
+
+
+SWEEP_CFGS = [('forward', 1, 1, dict(num_steps=3)), ('central', 1, 2, {}), ('backward', 2, 2, dict(num_steps=4)), ('central', 2, 2, {}),
+              ('forward', 1, 2, {})]
+
+
+def run_sweep(case, ctx):
+    """The steps of an element depend on |x| through a logarithm: whichever way that is computed, an element gets the same steps inside
+    an array and alone.  Differences of one ulp in a step show in a few points in ten thousand only - hence many cheap points."""
+    import numdifftools as nd
+    rng = np.random.default_rng(case['seed'])
+    method, n, order, kw = SWEEP_CFGS[case['cfg']]
+    f = [f_pure_cube, f_quartic][case['seed'] % 2]
+    x = 10.0 ** rng.uniform(0.001, 2.0, size=case['count']) * rng.choice([-1.0, 1.0], size=case['count'])
+    d = nd.Derivative(f, method=method, n=n, order=order, **kw)
+    try:
+        with np.errstate(all='ignore'):
+            arr = np.asarray(d(x.copy()), dtype=float)
+            for k in range(case['count']):
+                xk = [float(x[k]), np.float64(x[k]), np.array(x[k])][k % 3]
+                sk = np.asarray(d(xk), dtype=float).reshape(())
+                ctx.count('scalar_sweep_points_asserted')
+                if _bits(sk) != _bits(arr[k]):
+                    ctx.reject('scalar_call_differs_from_array_element', observed=float(sk), expected=float(arr[k]), method=method,
+                               detail=dict(x=float(x[k]), n=n, order=order, options=kw, given_as=type(xk).__name__, sweep=True))
+                    return
+    except Exception as exc:
+        ctx.reject('raised', observed=repr(exc)[:200], method=method, detail=dict(sweep=True))
+        return
+    ctx.nontrivial(('sweep', method, n, order))
+
+
 def _bits(a):
     return np.ascontiguousarray(np.asarray(a)).tobytes()
 
 
 def run_case(case, ctx):
+    if case.get('kind') == 'scalar_sweep':
+        return run_sweep(case, ctx)
     import numdifftools as nd
     rng = np.random.default_rng(case['seed'])
     shape = tuple(case['shape'])
